@@ -150,3 +150,60 @@ Definition lz4_block_decode_exact (src : bytes) (n : Z) : option bytes :=
   | Some out => if size out =? n then Some out else None
   | None => None
   end.
+
+(* ---- the same decoder with every read made explicit ---------------------------------------------------
+   SOob = a read outside the block (literals) or outside the output produced so far (match source).  The
+   decoder's own checks are kept; Proofs3.v shows that they make SOob unreachable and that this decoder and
+   the one above agree on every input. *)
+Inductive sres := SOk (out : bytes) | SErr | SOob.
+
+Definition take_exact (n : nat) (l : bytes) : option bytes :=
+  if (length l <? n)%nat then None else Some (firstn n l).
+
+Fixpoint copy_match_strict (n : nat) (off : nat) (out_rev : bytes) : option bytes :=
+  match n with
+  | O => Some out_rev
+  | S n' =>
+      if (off =? 0)%nat then None
+      else match nth_error out_rev (off - 1) with
+           | Some b => copy_match_strict n' off (b :: out_rev)
+           | None => None
+           end
+  end.
+
+Fixpoint lz4_sequences_strict (fuel : nat) (src : bytes) (out_rev : bytes) : sres :=
+  match fuel with
+  | O => SErr
+  | S fuel' =>
+      match src with
+      | [] => SErr
+      | tok :: src1 =>
+          match nibble_len (tok / 16) src1 with
+          | None => SErr
+          | Some (ll, src2) =>
+              if size src2 <? ll then SErr
+              else
+                match take_exact (Z.to_nat ll) src2 with
+                | None => SOob
+                | Some lit =>
+                    let out1 := rev lit ++ out_rev in
+                    match skipn (Z.to_nat ll) src2 with
+                    | [] => SOk (rev out1)
+                    | [_] => SErr
+                    | o0 :: o1 :: src4 =>
+                        let off := o0 + 256 * o1 in
+                        if (off =? 0) || (size out1 <? off) then SErr
+                        else
+                          match nibble_len (tok mod 16) src4 with
+                          | None => SErr
+                          | Some (ml, src5) =>
+                              match copy_match_strict (Z.to_nat (ml + 4)) (Z.to_nat off) out1 with
+                              | None => SOob
+                              | Some out2 => lz4_sequences_strict fuel' src5 out2
+                              end
+                          end
+                    end
+                end
+          end
+      end
+  end.
